@@ -115,6 +115,37 @@ pub fn translate(repo: &Path, out: &mut Out) {
                 let _ = writeln!(g, "(* libcnb/src/layer/shared.rs: fn delete_layer *)\nDefinition gen_delete_layer (layers_dir : path) (layer_name : bytes) : M unit :=\n{}.", crate::imp::indent(&term, 2));
             }
         }
+        // replace_layer_sboms: an `Sbom` is (format, data)
+        let cfg2 = crate::imp::Config {
+            methods: vec![("as_ref", "{r}"), ("as_str", "{r}"), ("clone", "{r}"), ("join", "({r} ++ [{0}])"), ("is_dir", "(is_dir {r} st_)"),
+                          (".format", "(fst {r})"), (".data", "(snd {r})")],
+            mutators: vec![],
+            state_calls: vec![],
+            calls: vec![("cnb_sbom_path", "(gen_cnb_sbom_path {0} {1} {2})")],
+            variants: vec![],
+            eq: "beq",
+            take_default: "(@nil N)",
+            mcalls: vec![
+                ("fs::remove_file", "(unlink {0})"),
+                ("default_on_not_found", "(default_on_not_found {0})"),
+                ("fs::write", "(write_file {0} (Raw {1}))"),
+                ("ReplaceLayerSbomsError::MissingLayer", "(fail EINVAL)"),
+            ],
+            mmethods: vec![],
+            display: vec![],
+        };
+        if let Some(file) = parse_file(&repo.join("libcnb/src/layer/shared.rs")) {
+            if let Some(f) = find_free_fn(&file, "replace_layer_sboms") {
+                let mut tr = crate::imp::Tr::new(&cfg2);
+                let term = tr.mstmts(&f.block.stmts);
+                for m in &tr.missing {
+                    out.miss(format!("shared.rs: replace_layer_sboms: {m}"));
+                }
+                let _ = writeln!(g, "(* libcnb/src/layer/shared.rs: fn replace_layer_sboms; MissingLayer is reported as EINVAL *)\nDefinition gen_replace_layer_sboms (layers_dir : path) (layer_name : bytes) (sboms : list (sbom_format * bytes)) : M unit :=\n{}.", crate::imp::indent(&term, 2));
+            } else {
+                out.miss("shared.rs: fn replace_layer_sboms");
+            }
+        }
         out.coq("GenLayerSharedImp.v").push_str(&g);
     }
     // ---- shared.rs: delete_layer
